@@ -2409,7 +2409,11 @@ class Statements(Sequence, Immutable):
             keep = set()
         candidates -= keep
         # Other dependencies after removed_ind
-        additional = {down for up, down in graph.edges if up > removed_ind and down in candidates}
+        additional = {
+            down
+            for up, down in graph.edges
+            if up != removed_ind and up not in candidates and down in candidates
+        }
         for add in additional.copy():
             additional |= set(nx.dfs_preorder_nodes(graph, add))
         remove = candidates - additional
